@@ -2007,6 +2007,59 @@ class Interp:
         self.templates.setdefault(tid, {'fn': self.frame['callee'], 'line': e['line'], 'text': self.tmpl_text(items)})
         return t
 
+    def dispatch_constructed(self, recv, m, e, env):
+        """a method called on a value the crate's own code spelled out as a choice of values of crate types (strategy objects behind `&dyn Trait` /
+        `Box<dyn Trait>`, or an enum of unit structs): under each condition the implementation for that alternative's type runs"""
+        def type_of(x):
+            if x[0] == 'path' and x[1] in self.c.structs:
+                return x[1]
+            if x[0] == 'struct' and x[1] in self.c.structs:
+                return x[1]
+            return None
+
+        def impl_for(ty):
+            mod, short = ty.rsplit('::', 1)
+            inh = self.c.method_of(ty, m)
+            if inh:
+                return inh
+            c_ = [q for q in self.c.fns if q.startswith(f'{mod}::<{short} as ') and q.endswith('>::' + m)]
+            if len(c_) == 1:
+                return c_[0]
+            # a provided method of the only crate trait the type implements that has one of this name
+            c_ = [q for q in self.c.fns if self.c.fns[q].get('trait_default') and q.endswith('::' + m) and
+                  any(q2.startswith(f'{mod}::<{short} as {self.c.fns[q]["trait_default"]}>') for q2 in self.c.fns)]
+            return c_[0] if len(c_) == 1 else None
+
+        def ok(x, depth=0):
+            if x[0] == 'alt' and depth < 6:
+                return all(ok(y, depth + 1) for _, y in x[1])
+            if x[0] == 'diverge':
+                return True
+            ty = type_of(x)
+            return ty is not None and impl_for(ty) is not None and impl_for(ty) not in self.stack
+        if not ok(recv) or (recv[0] != 'alt' and type_of(recv) is None):
+            return None
+        if recv[0] != 'alt' and self.c.method_of(type_of(recv), m):
+            return None
+        args = [self.expr(a, env) for a in e['args']]
+
+        def go(x):
+            if x[0] == 'alt':
+                out, n0 = [], len(self.frame['conds'])
+                for c, y in x[1]:
+                    self.frame['conds'].append(c)          # the implementation runs under the condition of its alternative (and not of the earlier ones)
+                    out.append((c, go(y)))
+                    self.frame['conds'].pop()
+                    self.frame['conds'].append(self.neg(c))
+                del self.frame['conds'][n0:]
+                return ('alt', out)
+            if x[0] == 'diverge':
+                return x
+            q = impl_for(type_of(x))
+            self.inline_calls.append((self.frame['callee'], q, e['line']))
+            return self.call_fn(q, [x] + args, line=e['line'])
+        return go(recv)
+
     def tokens_of(self, v, node):
         """a value of a crate type with a hand-written `impl ToTokens` interpolated into a template: the tokens its `to_tokens` appends"""
         leaves = []
@@ -2410,6 +2463,10 @@ class Interp:
             args = [self.expr(a, env) for a in e['args']]
             self.inline_calls.append((self.frame['callee'], mq, e['line']))
             return self.call_fn(mq, [recv] + args, line=e['line'])
+        if not mq and recv[0] in ('alt', 'path', 'struct'):
+            d = self.dispatch_constructed(recv, m, e, env)
+            if d is not None:
+                return d
         # side effects on accumulators / collections -----------------------------------------------------------------
         if m in ('to_tokens',) and len(e['args']) == 1:
             # `x.to_tokens(tokens)` appends the tokens of x to the stream: tokens.extend(x)
